@@ -24,7 +24,10 @@ def parse_simple(text, delim=','):
 
 
 def strs(rows):
-    return [['' if v is None else str(v) for v in r] for r in rows]
+    # a missing value is None in a list table and NaN / NA in a pandas string column (pandas >= 3 infers a string dtype whose missing value is
+    # NaN): both are "no value" - the text a CSV writer would produce for them is the empty string. (The generated cells are strings: a NaN can only
+    # be a missing value here.)
+    return [['' if (v is None or (isinstance(v, float) and v != v) or type(v).__name__ == 'NAType') else str(v) for v in r] for r in rows]
 
 
 def run_case(c):
